@@ -165,13 +165,18 @@ def check_queries(ctx, srcs, what: str, expect_index_error=None, pack_check=None
         reqs.append(("simp", ["0", a_enc]))
         keep.append((src, a_enc, got, enc(out) if out is not None else None))
     res = ctx.driver.batch(reqs)
-    # the checked model (explicit side conditions) must agree with the plain one: a guard that fires is a broken tie
+    # the checked model (explicit side conditions): where it returns a result the plain model must return the same one
+    # (theorem simpCk_refines_simp; re-checked here on the run's inputs); where one of its guards fires the input is
+    # outside the domain of the soundness theorem (e.g. a lambda parameter used as a function) and is covered by the
+    # correspondence and the oracles only - counted per guard in the evidence
     res_ck = ctx.driver.batch([("simpCk", a) for _, a in reqs])
     for (src, _, _, _), r0, r1 in zip(keep, res, res_ck):
-        if tuple(r0) != tuple(r1) and not (r1[0] == "err" and "comprehension" in r1[1]):
-            ctx.disagree("simpCk-side-conditions", {"src": src}, (r0[0], r0[1][:300]), (r1[0], r1[1][:300]))
+        if r1[0] == "err" and "side-condition:" in r1[1]:
+            ctx.dist["outside-checked-model: " + r1[1].split("side-condition:", 1)[1].strip()[:60]] += 1
         elif tuple(r0) != tuple(r1):
-            ctx.dist["simpCk-comprehension-refused"] += 1
+            ctx.disagree("simpCk-refines-simp", {"src": src}, (r0[0], r0[1][:300]), (r1[0], r1[1][:300]))
+        else:
+            ctx.dist["inside-checked-model"] += 1
     pairs = []
     for (src, a_enc, got, out_enc), (st, payload) in zip(keep, res):
         if st == "ok":
@@ -220,7 +225,12 @@ class _Projector(ast.NodeTransformer):
             other = self.rng.choice(["1", "x", "e", "(2, 3)"])
             kind = self.rng.random()
             src = ast.unparse(node)
-            if kind < 0.4:
+            if kind < 0.08:
+                # a key that is not a constant (before / after the wanted one): the literal cannot be taken apart
+                dk = self.rng.choice(["k", "e.n", "x"])
+                new = self.rng.choice([f"{{'a': {src}, {dk}: {other}}}", f"{{{dk}: {other}, 'a': {src}}}", f"{{'a': {src}, 'b': {other}, {dk}: 1}}"]) + \
+                    self.rng.choice(["['a']", ".a", "['b']", f"[{sel}]"])
+            elif kind < 0.4:
                 new = f"({src}, {other})[{sel}]"
             elif kind < 0.55:
                 new = f"[{src}, {other}][{sel}]"
